@@ -310,6 +310,11 @@ def pk : Stmt := .insertSelect (ih "INSERT_OVERWRITE" (tn "t") (some [cmp "EQ" (
 #guard leaves i1 == ["t", "a", "t", "b", "1", "'x'", "a", "2", "p", "q", "1", "1", "f", "1", "2"] &&
   leaves u2 == ["x", "b", "u", "t", "a", "1", "a", "b"] && leaves d2 == ["s", "t"] &&
   leaves d1 == ["t", "a", "1", "b", "b", "u", "a", "5", "10"]
+/-- the same witness on the token level, checked by the kernel: the rendering of `pk` (what the printer emits for the tree the parser built)
+is refused by `pStatement`, and `pk` is outside the fragment -/
+theorem partition_key_not_reparsed :
+    (match pStatement .HIVE 400 (toksStmt .HIVE pk) with | .error .parse => true | _ => false) = true ∧ FragStmt .HIVE pk = false := by
+  decide
 -- instances of the theorems (hypotheses decided by the kernel, conclusions the theorems')
 /-- `DELETE FROM t WHERE a = 1` (kernel-checked instances avoid `String.splitOn` / `toString`: no qualified table, no LIMIT) -/
 def d0 : Stmt := .delete (tn "t") (some (cmp "EQ" (col "a") (lit "1"))) none none
